@@ -171,7 +171,7 @@ def guards_at(cfg: CFG, b: int) -> List[Tuple[ast.expr, bool]]:
             continue
         for lab, pol in (("T", True), ("F", False)):
             if edge_dominates(cfg, t, lab, b):
-                out.extend(facts_of(node.ast, pol))
+                out.extend((a, p) for a, p in facts_of(node.ast, pol) if not isinstance(a, ast.Constant))
     return _close(out)
 
 
